@@ -1597,8 +1597,8 @@ class Interp:
             for v, t in zip(vals, tvs):
                 if t is not None:
                     ps.append(Poly.const(1 if t else 0))
-                elif isinstance(v, Arr) and v.ndim == 0 and _is_boolean(v.poly):
-                    ps.append(v.poly)
+                elif isinstance(v, Arr) and all(d_ is None for d_ in v.dims) and v.mask is None and _is_boolean(v.poly):
+                    ps.append(v.poly)          # (an array of one element has the truth value of that element)
                 else:
                     return Unk('boolean operator on %r' % (v,), e)
             r = ps[0]
